@@ -447,6 +447,11 @@ func execute(c Case) vkit.Result {
 			what = "the broker process hangs"
 		}
 		r := vkit.Failf("%s input (%d bytes: %s) -> %s: %s; frames %v", c.Kind, len(c.Data), c.Note, what, d.Summary(), first(d.Frames(), 6))
+		if d.Hang && (c.Kind == "gossip" || c.Kind == "broadcast" || c.Kind == "unicast") && !truthfulLengths(c) {
+			// a payload whose size claims lie and that keeps the child busy past the ceiling (allocating / zeroing gigabytes on a
+			// loaded machine) is the listed length-prefix finding, not a new hang
+			r.Finding = "C09-cluster-length-prefix"
+		}
 		if !d.Hang && c.Kind != "client" {
 			site := d.TopFrame()
 			sum := d.Summary()
@@ -494,6 +499,46 @@ func execute(c Case) vkit.Result {
 	}
 	vkit.Label("max-alloc-bucket:"+bucket(rs.Alloc), 1)
 	return vkit.Result{NonTrivial: nontrivial, Labels: labels}
+}
+
+func truthfulLengths(c Case) bool {
+	if c.Kind == "unicast" {
+		_, ok := unsnappy(c.Data)
+		return ok && lengthsOK(c.Data, true)
+	}
+	return lengthsOK(c.Data, false)
+}
+
+// lengthsOK: the snappy header claims at most 1 MiB and every length prefix of the payload is within the data.
+func lengthsOK(data []byte, frame bool) bool {
+	raw, ok := unsnappy(data)
+	if !ok {
+		return false
+	}
+	r := &rd{b: raw, ok: true}
+	if frame {
+		n := r.uvarint()
+		for i := uint64(0); r.ok && i < n && i < 1<<16; i++ {
+			r.bytes(r.uvarint())
+			r.bytes(r.uvarint())
+			r.bytes(r.uvarint())
+			r.uvarint()
+		}
+		return r.ok && n <= 1<<16
+	}
+	nmap := r.uvarint()
+	for i := uint64(0); r.ok && i < nmap && i < 256; i++ {
+		r.uvarint()
+		count := r.uvarint()
+		for j := uint64(0); r.ok && j < count && j < 1<<16; j++ {
+			r.bytes(r.uvarint())
+			r.bytes(r.uvarint())
+		}
+		if count > 1<<16 {
+			return false
+		}
+	}
+	return r.ok && nmap <= 256
 }
 
 func bucket(n uint64) string {
